@@ -838,8 +838,25 @@ def fitted_cases(draw):
     return c
 
 
+def enum_fitted_all_kinds(tier):
+    """One representative configuration of EVERY runnable estimator kind (the fitted-state
+    guard of a kind does not depend on the data)."""
+    base = {"values": [7.0, 9.5, 6.25, 11.0, 8.0, 12.5, 9.0, 13.25, 10.5, 14.0], "start": 3, "seed": 11}
+    for sp in pools.FORECASTER_ENUM:
+        yield dict(base, family="forecaster", spec=sp)
+    for sp in panelpool.SERIES_TRANSFORMER_ENUM:
+        yield dict(base, family="series_transformer", spec=sp)
+    for k in panelpool.PANEL_TRANSFORMERS:
+        yield dict(base, family="panel_transformer", spec={"kind": k})
+    for k in panelpool.CLASSIFIERS + ("tsfr",):
+        for nc in ((1, 2) if k == "cec" else (1,)):
+            yield dict(base, family="panel_estimator", spec={"kind": k, "n_columns": nc})
+
+
 def subchecks():
     return [
+        SubCheck("fitted_state_every_kind", oracle_fitted_state, enumerate_cases=enum_fitted_all_kinds,
+                 shards_quick=16, shards_thorough=16, exhaustive=True),
         SubCheck("constructor_defaults_all_classes", oracle_constructor, enumerate_cases=enum_constructor_defaults,
                  shards_quick=4, shards_thorough=8, exhaustive=True),
         SubCheck("constructor_contract", oracle_constructor, constructor_cases(), quick=1200, thorough=8000,
